@@ -273,3 +273,9 @@ def check_ctor(rep, tmod, f, facts):
     rep.ob('C19.ctor', 'self.cells[name] = (c, pin_dict)', ok)
     if not ok:
         rep.violate('C19.ctor', tmod, f, st[0] if st else 'self.cells[name]', 'every expanded name must map to (implementation circuit, pin table)', node=f)
+
+
+def thorough(rep, repo):
+    """Thorough tier: the quick rules plus checker self-validation on the C19 slice of the mutation corpus."""
+    from kvstatic import thorough as thorough_mod
+    thorough_mod.selftest_slice(rep, repo, 'C19')
